@@ -342,6 +342,8 @@ class Run:
         else:
             t = self.feasible(cond)
             f = self.feasible(z3.Not(cond))
+            if t and f and getattr(self, "no_fork", False):
+                raise Reject("fork inside a comprehension / quantified context")
             if t and f:
                 b = 1
                 self.alternatives.append(self.taken + [0])
@@ -623,6 +625,42 @@ class Run:
     def ev_List(self, n):
         return PyTuple([self.ev(e) for e in n.elts], is_list=True)
 
+    def ev_ListComp(self, n):
+        """[f(x) for x in seq]  ->  fresh list defined pointwise (f must evaluate without forking)."""
+        if len(n.generators) != 1 or n.generators[0].ifs or n.generators[0].is_async:
+            raise Reject("comprehension with filter / several generators")
+        g = n.generators[0]
+        it = self.ev(g.iter)
+        cnt, elem, cont = self.iter_desc(it)
+        i = z3.Int(H.fresh_name("lc_i"))
+        fr = self.frames[-1]
+        saved = dict(fr.env)
+        x = elem(i)
+        if isinstance(x, SV):
+            for f in self.type_facts(x):
+                self.assume(z3.Implies(z3.And(0 <= i, i < cnt), f))
+        self.assign(g.target, x)
+        old = getattr(self, "no_fork", False)
+        self.no_fork = True
+        try:
+            v = self.ev(n.elt)
+        finally:
+            self.no_fork = old
+            fr.env.clear()
+            fr.env.update(saved)
+        if not isinstance(v, SV):
+            raise Reject("comprehension element %r" % (v,))
+        t = T.List(v.ty)
+        out = self.new_container(t)
+        name, a = self.heap.carr(t, "len")
+        self.heap.set(name, z3.Store(a, out.z, cnt))
+        arr = H.fresh("lc_elems", z3.ArraySort(H.I, T.sort(v.ty)))
+        self.assume(z3.ForAll([i], z3.Implies(z3.And(0 <= i, i < cnt), z3.Select(arr, i) == v.z), patterns=[z3.Select(arr, i)]))
+        self.heap._upd(t, "elem", out.z, arr)
+        return out
+
+    ev_GeneratorExp = ev_ListComp
+
     def ev_IfExp(self, n):
         c = self.truthy(self.ev(n.test))
         if self.choose(c):
@@ -664,7 +702,19 @@ class Run:
 
     _dunder = {"Add": "__add__", "Sub": "__sub__", "Mult": "__mul__", "Div": "__truediv__"}
 
+    def unwrap_opt(self, v, exc="AttributeError"):
+        """Use of an Optional where an object is needed: None -> exception path, else the value."""
+        if isinstance(v, SV) and isinstance(v.ty, T.Opt):
+            if self.choose(T.opt_is_none(v.ty, v.z)):
+                raise Raise_(exc)
+            return SV(v.ty.inner, T.opt_get(v.ty, v.z))
+        if isinstance(v, SV) and v.ty == T.NONE:
+            raise Raise_(exc)
+        return v
+
     def binop(self, op, a, b):
+        if isinstance(a, SV) and isinstance(a.ty, T.Opt) and isinstance(a.ty.inner, (T.Val, T.INT.__class__)):
+            a = self.unwrap_opt(a, "TypeError")
         if isinstance(a, SV) and isinstance(a.ty, (T.Val, T.Ref)) and op in self._dunder:
             return self.call_method(a, self._dunder[op], [b], {})
         if isinstance(a, PyTuple) and isinstance(b, PyTuple) and op == "Add":
@@ -807,6 +857,8 @@ class Run:
         raise Reject("compare %s" % op)
 
     def order(self, op, a, b):
+        if isinstance(a, SV) and isinstance(a.ty, T.Opt):
+            a = self.unwrap_opt(a, "TypeError")
         if isinstance(a, SV) and isinstance(a.ty, (T.Val, T.Ref, T.Enum)):
             cls = a.ty.name if isinstance(a.ty, (T.Val, T.Enum)) else a.ty.cls
             name = {"Lt": "__lt__", "LtE": "__le__", "Gt": "__gt__", "GtE": "__ge__"}[op]
@@ -928,7 +980,7 @@ class Run:
             q = resolve_method(base.qname, attr)
             if q:
                 return FuncRef(q)
-            raise Reject("class attribute %s" % full)
+            return OpaqueObj(full)
         if isinstance(base, OpaqueObj):
             return OpaqueObj(base.what + "." + attr)
         if isinstance(base, PyTuple):
@@ -936,6 +988,8 @@ class Run:
         if not isinstance(base, SV):
             raise Reject("attribute %s of %r" % (attr, base))
         t = base.ty
+        if t == T.NONE:
+            raise Raise_("AttributeError")
         if isinstance(t, T.Opt):
             # attribute of an optional: None -> AttributeError
             if self.choose(T.opt_is_none(t, base.z)):
@@ -1091,6 +1145,8 @@ class Run:
         if isinstance(f, Builtin):
             return self.call_builtin(f.name, arg_nodes, kw_nodes, node)
         if isinstance(f, OpaqueObj):
+            if f.what.endswith("_rng.uniform") and "random.Random.uniform" in CONTRACTS:
+                return self.apply_contract(CONTRACTS["random.Random.uniform"], [self.ev(a) for a in arg_nodes], {})
             for a in arg_nodes:
                 self.ev(a)
             return OpaqueObj(f.what + "()")
@@ -1155,6 +1211,20 @@ class Run:
                     else:
                         cur = nxt if self.choose(c) else cur
             return cur
+        if name in ("any", "all"):
+            (v,) = args
+            if isinstance(v, PyTuple):
+                ts = [self.truthy(x) for x in v.items]
+                return SV(T.BOOL, (z3.Or(*ts) if name == "any" else z3.And(*ts)) if ts else z3.BoolVal(name == "all"))
+            if isinstance(v, SV) and isinstance(v.ty, T.List):
+                i = z3.Int(H.fresh_name("aa_i"))
+                n_ = self.heap.c_len(v.ty, v.z)
+                e = self.truthy(SV(v.ty.elem, self.heap.l_elem(v.ty, v.z, i)))
+                rng = z3.And(0 <= i, i < n_)
+                if name == "any":
+                    return SV(T.BOOL, z3.Exists([i], z3.And(rng, e)))
+                return SV(T.BOOL, z3.ForAll([i], z3.Implies(rng, e)))
+            raise Reject("%s over %r" % (name, v))
         if name == "abs":
             (v,) = args
             v = self.num(v)
@@ -1260,6 +1330,8 @@ class Run:
         return FALSE
 
     def type_of(self, v):
+        if isinstance(v, dict):
+            return ClassRef(self.frames[-1].cls)
         if isinstance(v, SV):
             t = v.ty
             if isinstance(t, (T.Val, T.Enum)):
@@ -1697,6 +1769,8 @@ class Run:
             if isinstance(base, dict):  # value object under construction
                 base[attr] = v
                 return
+            if isinstance(base, SV) and base.ty == T.NONE:
+                raise Raise_("AttributeError")
             if isinstance(base, SV) and isinstance(base.ty, T.Ref):
                 if self.feasible(base.z == 0):
                     if self.choose(base.z == 0):
